@@ -47,7 +47,6 @@ package dumbindent
 //@   prop C12
 //@   pure
 //@   ensures[nonblank] result != ' ' && result != '\t'
-//@   ensures[last] implies(result == 0, forall(k, 0, len(s), s[k] == ' ' || s[k] == '\t' || s[k] == 0))
 //@   loop 1 invariant forall(k, i + 1, len(s), s[k] == ' ' || s[k] == '\t')
 //@   loop 1 invariant -1 <= i && i < len(s)
 //@   loop 1 decreases i + 1
